@@ -1,5 +1,5 @@
 (* C30: executable model of pony.orm.core.adapt_sql (scan for $, $$, $expression; placeholder per paramstyle; % doubling for
-   format / pyformat; the process-wide adapted_sql_cache with its lookup and store keys) and of ormtypes.parse_raw_sql
+   format / pyformat; the process-wide adapted_sql_cache) and of ormtypes.parse_raw_sql
    (same scanner, no styles).  Hand-written; tied to /repo by correspondence.  Definitions only. *)
 Require Import PonyV.Base.PyBase PonyV.Model.C06Str PonyV.Model.C06Params PonyV.Model.C30Scan.
 
@@ -139,8 +139,10 @@ Definition parse_raw (sql : str) : result (list item) :=
   match sql with [] => Err E_TYPE | _ => items_of sql end.
 
 (* ---------------------------------------------------------------------------------------------------------------
-   the cache:  result = adapted_sql_cache.get((sql, paramstyle)) ... adapted_sql_cache[(sql, paramstyle)] = result
-   where the second `sql` is the REWRITTEN text.  Most recent entry first; lookup takes the first match (dict overwrite). *)
+   the cache (as of /repo bfddd57):
+       result = adapted_sql_cache.get((sql, paramstyle)) ... adapted_sql_cache[(original_sql, paramstyle)] = result
+   looked up and stored under the same key, the statement as the caller wrote it.  Most recent entry first; lookup takes the
+   first match (dict overwrite).  Nothing is stored when adapt_sql raises. *)
 Definition ckey : Type := (str * paramstyle)%type.
 Definition ckey_eqb (a b : ckey) : bool := str_eqb (fst a) (fst b) && style_eqb (snd a) (snd b).
 
@@ -155,7 +157,7 @@ Definition cached_adapt (c : list (ckey * adapted)) (rq : ckey) : result adapted
   | Some v => (Ok v, c)
   | None =>
       match adapt (snd rq) (fst rq) with
-      | Ok v => (Ok v, ((rewrite (snd rq) (fst rq), snd rq), v) :: c)
+      | Ok v => (Ok v, (rq, v) :: c)
       | Err e => (Err e, c)
       end
   end.
@@ -165,23 +167,6 @@ Fixpoint run_history (c : list (ckey * adapted)) (h : list ckey) : list (result 
   match h with
   | [] => []
   | rq :: r => let (a, c') := cached_adapt c rq in a :: run_history c' r
-  end.
-
-(* the repaired cache (proposed fix): stored under the key it is looked up with *)
-Definition cached_adapt_fixed (c : list (ckey * adapted)) (rq : ckey) : result adapted * list (ckey * adapted) :=
-  match cache_get rq c with
-  | Some v => (Ok v, c)
-  | None =>
-      match adapt (snd rq) (fst rq) with
-      | Ok v => (Ok v, (rq, v) :: c)
-      | Err e => (Err e, c)
-      end
-  end.
-
-Fixpoint run_history_fixed (c : list (ckey * adapted)) (h : list ckey) : list (result adapted) :=
-  match h with
-  | [] => []
-  | rq :: r => let (a, c') := cached_adapt_fixed c rq in a :: run_history_fixed c' r
   end.
 
 (* ---------------------------------------------------------------------------------------------------------------
